@@ -102,3 +102,38 @@ def rule_const_width(chk, rid, select=None, floor=50):
                           'function use `%s`' % (name, fm, w, len(ws[major]), major),
                           facts={'widths': {k_: len(v_) for k_, v_ in ws.items()}})
     return r
+
+
+def rule_threshold_tests(chk, rid, select=None, floor=20):
+    """contradiction rule: `cmp counter_byte, 256-N ; jae overflow` — within one function, every unsigned test against one such
+    constant uses the same strictness (ja vs jae, jb vs jbe): the stitched kernels test the same headroom at several places"""
+    r = chk.rule(rid, 'within one function, all unsigned tests of a byte counter against the same near-overflow constant (0xC0..0xFF) use the '
+                      'same condition (a strict test in one place and a non-strict one in another disagree about one counter value)', floor=floor)
+    for rel, name, res in asmfacts.all_functions():
+        if select and not select(rel, name):
+            continue
+        by = {}
+        for a, imm, cc in res.get('hi_tests', ()):
+            if cc in ('a', 'ae', 'b', 'be'):
+                by.setdefault(imm, {}).setdefault(cc, []).append(a)
+        for imm, ccs in sorted(by.items()):
+            key = '%s:%#x' % (name, imm)
+            fam = {'a': 'hi', 'ae': 'hi', 'b': 'lo', 'be': 'lo'}
+            groups = {}
+            for cc, sites in ccs.items():
+                groups.setdefault(fam[cc], {})[cc] = sites
+            bad = False
+            for g, d in groups.items():
+                if len(d) > 1:
+                    bad = True
+                    major = max(d, key=lambda c_: len(d[c_]))
+                    for cc, sites in d.items():
+                        if cc == major:
+                            continue
+                        for a in sites[:3]:
+                            r.bad('%s@%#x' % (key, a - res['entry']), res['lines'].get(a, rel),
+                                  '%s: the counter is tested against %#x with `j%s` here and with `j%s` at %d other place(s) of the function: '
+                                  'the two tests disagree for the value %#x' % (name, imm, cc, major, len(d[major]), imm if 'e' in cc + major else imm))
+            if not bad:
+                r.ok(key, {c_: len(v_) for c_, v_ in ccs.items()})
+    return r
